@@ -44,6 +44,14 @@ def tiny(hidden=(4,)):
     return list(hidden)
 
 
+def _td7(train_td7, env, st, seed, total, limit, extra, batch, warm, buf, at, ct, start):
+    return train_td7(env, st.embedding, st.embedding_optimizer, st.actor, st.actor_optimizer, st.critic, st.critic_optimizer, seed=seed,
+                     total_timesteps=total, total_episodes=limit, gamma=0.9, target_delay=extra.get("td", 3), policy_delay=extra.get("pd", 2),
+                     use_checkpoints=extra.get("use_checkpoints", False), max_episodes_when_checkpointing=extra.get("max_eps", 2),
+                     steps_before_checkpointing=extra.get("steps_before", 6), batch_size=batch, learning_starts=warm, replay_buffer=buf,
+                     actor_target=at, critic_target=ct, global_step=start, logger=extra.get("logger"), progress_bar=False, **extra.get("kw", {}))
+
+
 def run(name, script, total, start=0, limit=None, warm=0, batch=2, cap=1000, seed=0, low=(-1.0,), high=(1.0,), extra=None):
     """Run routine `name`. Returns a dict (see module docstring)."""
     import jax.numpy as jnp
@@ -100,15 +108,15 @@ def run(name, script, total, start=0, limit=None, warm=0, batch=2, cap=1000, see
             kw = dict(seed=seed, total_timesteps=total, gamma=0.9, tau=tau, batch_size=batch, learning_starts=warm, replay_buffer=buf,
                       policy_target=pt, q_target=qt, global_step=start, progress_bar=False)
             if name == "ddpg":
-                out = train_ddpg(env, st.policy, st.policy_optimizer, st.q, st.q_optimizer, total_episodes=limit, **kw)
+                out = train_ddpg(env, st.policy, st.policy_optimizer, st.q, st.q_optimizer, total_episodes=limit, **kw, **extra.get("kw", {}))
                 res["returned_step"] = int(out.steps_trained)
             elif name == "td3":
                 from rl_blox.algorithm.td3 import train_td3
-                out = train_td3(env, st.policy, st.policy_optimizer, st.q, st.q_optimizer, total_episodes=limit, policy_delay=extra.get("pd", 2), **kw)
+                out = train_td3(env, st.policy, st.policy_optimizer, st.q, st.q_optimizer, total_episodes=limit, policy_delay=extra.get("pd", 2), **kw, **extra.get("kw", {}))
                 res["returned_step"] = int(out.global_step)
             else:
                 from rl_blox.algorithm.td3_lap import train_td3_lap
-                out = train_td3_lap(env, st.policy, st.policy_optimizer, st.q, st.q_optimizer, policy_delay=extra.get("pd", 2), **kw)
+                out = train_td3_lap(env, st.policy, st.policy_optimizer, st.q, st.q_optimizer, policy_delay=extra.get("pd", 2), **kw, **extra.get("kw", {}))
                 res["returned_step"] = int(out.global_step)
         elif name == "sac":
             from rl_blox.algorithm.sac import EntropyControl, create_sac_state, train_sac
@@ -130,10 +138,28 @@ def run(name, script, total, start=0, limit=None, warm=0, batch=2, cap=1000, see
             at, ct = nnx.clone(st.actor), nnx.clone(st.critic)
             buf = LAP(cap)
             mods.update({"embedding": st.embedding, "actor": st.actor, "critic": st.critic, "actor_target": at, "critic_target": ct})
-            out = train_td7(env, st.embedding, st.embedding_optimizer, st.actor, st.actor_optimizer, st.critic, st.critic_optimizer, seed=seed,
-                            total_timesteps=total, total_episodes=limit, gamma=0.9, target_delay=extra.get("td", 3), policy_delay=extra.get("pd", 2),
-                            use_checkpoints=extra.get("use_checkpoints", False), batch_size=batch, learning_starts=warm, replay_buffer=buf,
-                            actor_target=at, critic_target=ct, global_step=start, progress_bar=False)
+            import rl_blox.algorithm.td7 as td7m
+            orig_pol, orig_assess, made, flags = td7m.DeterministicSALEPolicy, td7m.assess_performance_and_checkpoint, [], []
+
+            def rec_policy(embedding, actor):     # train_td7 builds policy, policy_target, [checkpoint] in this order
+                p = orig_pol(embedding, actor)
+                tag = ["fixed_embedding", "fixed_embedding_target", "fixed_embedding_checkpoint"][len(made)]
+                mods[tag] = embedding
+                if tag == "fixed_embedding_checkpoint":
+                    mods["actor_checkpoint"] = actor
+                made.append(p)
+                return p
+
+            def rec_assess(*a, **k):
+                r = orig_assess(*a, **k)
+                flags.append((len(snaps) - 1, bool(r[0]), int(r[1])))
+                return r
+            td7m.DeterministicSALEPolicy, td7m.assess_performance_and_checkpoint = rec_policy, rec_assess
+            res["checkpoint_decisions"] = flags
+            try:
+                out = _td7(train_td7, env, st, seed, total, limit, extra, batch, warm, buf, at, ct, start)
+            finally:
+                td7m.DeterministicSALEPolicy, td7m.assess_performance_and_checkpoint = orig_pol, orig_assess
             res["returned_step"] = int(out.global_step)
             res["td7_out"] = out
         elif name == "mrq":
@@ -147,7 +173,7 @@ def run(name, script, total, start=0, limit=None, warm=0, batch=2, cap=1000, see
             out = train_mrq(env, st.policy_with_encoder, st.encoder_optimizer, st.policy_optimizer, st.q, st.q_optimizer, st.the_bins, seed=seed,
                             total_timesteps=total, total_episodes=limit, gamma=0.9, target_delay=extra.get("td", 3), batch_size=batch,
                             learning_starts=warm, encoder_horizon=2, q_horizon=2, replay_buffer=buf, policy_with_encoder_target=pet, q_target=qt,
-                            global_step=start, progress_bar=False)
+                            global_step=start, progress_bar=False, **extra.get("kw", {}))
             res["returned_step"] = int(out.global_step)
         elif name == "pets":
             from rl_blox.algorithm.pets import create_pets_state, train_pets
